@@ -126,6 +126,11 @@ func specVarKey(c context, name string, prefix string) string {
 	return key
 }
 
+func specKeyOf(c context, name string, prefix string, global bool) string {
+	key, _ := c.buildPrefixedName(name, prefix, global, false)
+	return key
+}
+
 func specHasFunction(c context, name string, prefix string) bool {
 	_, ok := c.findFunction(name, prefix)
 	return ok
@@ -267,7 +272,7 @@ func specInScope(stack []scope, n int, s scope) bool {
 //@   ensures[C01] one-branch-per-case-in-order: err == nil && calls(evaluateExpression) > ite(old(p.peekAt(1)).tokenType == lexer.OPENING_CURLY_BRACKET, 0, 1) ==> isType(result0, "parser.If") && 1 + len(asType(result0, "parser.If").elifBranches) == calls(evaluateExpression) - ite(old(p.peekAt(1)).tokenType == lexer.OPENING_CURLY_BRACKET, 0, 1)
 //
 //@ func (*Parser).evaluateImports
-//@   loop 4 invariant[C09] merge-keeps-imported-edges: has(p.usedFuncs, funcName) && forall(k, 0, rangeindex + 1, inList(get(p.usedFuncs, funcName), usedFuncs[k])) && forall(j, 0, len(foundUsedFuncs), inList(get(p.usedFuncs, funcName), foundUsedFuncs[j]))
+//@   loop 4 invariant[C09] merge-keeps-imported-edges: has(p.usedFuncs, funcName) && forall(k, 0, rangeindex + 1, inList(get(p.usedFuncs, funcName), usedFuncs[k])) && samePrefix(foundUsedFuncs, get(p.usedFuncs, funcName))
 //@   loop 4 exit[C09] every-imported-edge-of-this-caller-merged: forall(k, 0, len(usedFuncs), inList(get(p.usedFuncs, funcName), usedFuncs[k]))
 //@   loop 5 invariant[C09] imported-top-level-code-kept: len(statements) >= specCountOther(statementsTemp, rangeindex + 1)
 //
@@ -333,6 +338,7 @@ func specInScope(stack []scope, n int, s scope) bool {
 //@   ensures[C06] every-condition-boolean: err == nil ==> isType(result0, "parser.If") && specTyped(asType(result0, "parser.If").ifBranch.condition) && asType(result0, "parser.If").ifBranch.condition.ValueType().IsBool() && forall(k, 0, len(asType(result0, "parser.If").elifBranches), specTyped(asType(result0, "parser.If").elifBranches[k].condition) && asType(result0, "parser.If").elifBranches[k].condition.ValueType().IsBool())
 //
 //@ func (*Parser).evaluateFor
+//@   ensures[C01] plain-assignment-accepted-as-init: err != nil && calls(evaluateStatement) == 1 && res(evaluateStatement, 0, 1) == nil && calls(evaluateExpression) == 0 && calls(evaluateBlock) == 0 && res(evaluateStatement, 0, 0).StatementType() == STATEMENT_TYPE_VAR_ASSIGNMENT ==> hasPrefix(errmsg(err), "expected \";\"")
 //@   ensures[C06] condition-boolean: err == nil ==> isType(result0, "parser.For") && specTyped(asType(result0, "parser.For").condition) && asType(result0, "parser.For").condition.ValueType().IsBool()
 //
 //@ func (*Parser).evaluateSliceAssignment
@@ -358,6 +364,16 @@ func specInScope(stack []scope, n int, s scope) bool {
 //
 //@ func (*Parser).evaluateReturn
 //@   ensures[C07] only-in-function: !specInScope(ctx.scopeStack, len(ctx.scopeStack), "function") ==> err != nil
+//
+//@ func (context).addVariables
+//@   flag inline: true
+//@   loop 1 invariant[C02,C07] registered-so-far: forall(k, 0, rangeindex + 1, has(c.variables, specKeyOf(c, variables[k].name, prefix, global)) && (forall(j, k + 1, rangeindex + 1, specKeyOf(c, variables[j].name, prefix, global) != specKeyOf(c, variables[k].name, prefix, global)) ==> get(c.variables, specKeyOf(c, variables[k].name, prefix, global)) == variables[k]))
+//@   ensures[C02,C07] every-variable-registered-last-one-wins: result == nil ==> forall(k, 0, len(variables), has(c.variables, specKeyOf(c, variables[k].name, prefix, global))) && (len(variables) >= 1 ==> get(c.variables, specKeyOf(c, variables[len(variables) - 1].name, prefix, global)) == variables[len(variables) - 1])
+//
+//@ func (context).addImport
+//@   flag modular: true
+//@   requires[C09] alias-not-bound-yet: !has(c.imports, alias)
+//@   ensures[C09] bound: has(c.imports, alias) && get(c.imports, alias) == hash && result == nil
 //
 //@ func (context).findFunction
 //@   ensures[C09] unknown-alias-finds-nothing: len(strings.TrimSpace(prefix)) > 0 && !has(c.imports, strings.TrimSpace(prefix)) ==> !result1
